@@ -284,7 +284,8 @@ fn parse_pred<'a>(tys: &[Ty; 2], toks: &'a [&'a str], depth: usize) -> Option<(P
     match *h {
         "c" => {
             let c = parse_col(rest.first()?)?;
-            let op = OPS.iter().find(|o| **o == *rest.get(1)?)?;
+            let opname = *rest.get(1)?;
+            let op = OPS.iter().find(|o| **o == opname)?;
             let v = parse_val(tys[c], rest.get(2)?)?;
             Some((Pred::Cmp(c, op, v), &rest[3..]))
         }
